@@ -1,0 +1,37 @@
+//! Yield points for controlled-interleaving runs (engine E3).
+//!
+//! `yield_point(name, a, b)` is called from single cfg-guarded lines inserted at the
+//! interesting points of the commit pipeline, the stall controller, the background
+//! tasks, `Transaction::new` and `Core::close`. Without an installed hook it is one
+//! relaxed-cost atomic load. The harness installs a hook that records the event and
+//! parks the calling thread until its scheduler lets it continue.
+
+use std::sync::atomic::{AtomicUsize, Ordering};
+
+/// The hook: (point name, first argument, second argument).
+pub type Hook = fn(&'static str, u64, u64);
+
+static HOOK: AtomicUsize = AtomicUsize::new(0);
+
+/// Installs (or, with `None`, removes) the process-wide hook.
+pub fn set_hook(h: Option<Hook>) {
+	HOOK.store(h.map_or(0, |f| f as usize), Ordering::SeqCst);
+}
+
+/// Reports that the calling thread reached the point `name`.
+#[inline]
+pub fn yield_point(name: &'static str, a: u64, b: u64) {
+	let p = HOOK.load(Ordering::Acquire);
+	if p != 0 {
+		// SAFETY: the only non-zero values ever stored are `Hook` function pointers.
+		let f: Hook = unsafe { std::mem::transmute::<usize, Hook>(p) };
+		f(name, a, b);
+	}
+}
+
+/// Stall counts as the write-stall controller reads them: (immutable memtables, L0 files).
+pub fn stall_counts(tree: &crate::Tree) -> (usize, usize) {
+	use crate::stall::WriteStallCountProvider;
+	let c = tree.core.inner.get_stall_counts();
+	(c.immutable_memtables, c.l0_files)
+}
